@@ -17,12 +17,14 @@ Parts:
 * `C13_multiply`: the model of `MultiplyIter` yields exactly the cartesian product in odometer
   order, first index fastest, each tuple once, within the fuel the model gives it.
 * `C13_spelling_*`: bare value vs one-element array, and ASCII case of row / repeat names.
-* `C13_spec`: `convert F = Expand.expand F`, the declarative expansion of `Model/Expand.lean`
-  (see `Props/C13Spec.lean` for how much of it is proved; the executable comparison is run by suite
-  `load` on every generated program against model AND implementation).
+* `C13_spec`: `convert F = Expand.expand F` for EVERY fancy layout, where `expand` is the declarative
+  expansion of `Model/Expand.lean` (proved in `Proofs/LoadExpand{A,B,C1,C2}.lean`); `C13_handwritten`:
+  the layout and its expansion written out by hand convert to the same basic mappings.  The same
+  comparison is also run executably by suite `load` (commands `C13`, `C13X`) on every generated program
+  against the model AND the implementation.
 -/
 import TmVerif.Proofs.LoadSaveable2
-import TmVerif.Model.Expand
+import TmVerif.Proofs.LoadExpandC2
 
 namespace TmVerif
 open TmVerif.Tables Outcome
@@ -261,5 +263,77 @@ open Parse in
 /-- a one-element array and the bare string: both are the trigger `A` -/
 example : parseFrom (Json.arr [Json.str ['A']]) = parseFrom (Json.str ['A']) :=
   C13_spelling_from _ (by intro xs h; cases h)
+
+/-! ## (4) the declarative expansion -/
+
+/-- the full statement of "shorthands mean exactly their hand-written expansion", kept visible -/
+def C13_spec_statement : Prop := ∀ F : Fancy.Layout, convert F = Expand.expand F
+
+/-- C13: for EVERY fancy layout (parse-produced or not), the imperative conversion — odometer,
+index arithmetic, hash tables, in-place mutation — returns exactly what the declarative expansion of
+`Model/Expand.lean` says: per source mapping in source order; per choice of alias definitions, first
+slot fastest; per non-space letter; Shift by the table, right Shift if the trigger has right Shift;
+output aliases replaced by the trigger-side choice; then the repeat-only entries by trigger SET;
+then the duplicate check.  Errors included (an error on one side is an error on the other).
+No hypothesis. -/
+theorem C13_spec : C13_spec_statement := Convert.convert_eq_expand
+
+/-- the same for the loader as a whole -/
+theorem C13_load (j : Json) : load j = Expand.loadSpec j := by
+  unfold load Expand.loadSpec
+  congr 1
+  funext F
+  exact C13_spec F
+
+/-- "converts to the same basic mappings as the layout with every shorthand written out by hand":
+if the expansion of `F` is the basic layout `L`, then `F` and the layout that spells every mapping
+of `L` out as a plain single mapping (`toFancy`: no rows, no aliases, no repeat-only entries) convert
+to the same thing, namely `L`.  (`aliasFromNonempty`: alias definitions have a key — guaranteed by
+the parser; needed because a mapping with an empty trigger cannot be written by hand.) -/
+theorem C13_handwritten {F : Fancy.Layout} (hF : Fancy.aliasFromNonempty F = true) {L : Layout}
+    (h : Expand.expand F = Outcome.ok L) :
+    convert F = Outcome.ok L ∧ convert (L.map toFancy) = Outcome.ok L := by
+  have hc : convert F = Outcome.ok L := by rw [C13_spec F]; exact h
+  exact ⟨hc, Convert.convert_toFancy (convert_wf hF hc)⟩
+
+/-- source order: the mappings of the first pass are the expansions of the source mappings,
+concatenated in source order (this is the definition of `expand`; stated for the record) -/
+theorem C13_source_order (F : Fancy.Layout) {groups : List (List Mapping)}
+    {entries : List (List (List Key × Repeat))}
+    (hg : Outcome.mapM (Expand.expandMapping F) F = Outcome.ok groups)
+    (he : Outcome.mapM (Expand.repeatOnlyEntries F) F = Outcome.ok entries) :
+    convert F =
+      (let res := entries.flatten.foldl (Expand.applyRepeat groups.flatten.length) groups.flatten
+       if res.all (fun m => decide m.frm.Nodup && decide m.to.Nodup) then Outcome.ok res else Outcome.error) := by
+  rw [C13_spec F]
+  simp only [Expand.expand, hg, he, bind_ok]
+
+/-! ### concrete instances -/
+
+/-- the easy-symbols fragment of `Props/C14.lean`, as a fancy layout -/
+def easySymbolsFancy : Fancy.Layout := [
+  Fancy.Mapping.alias ⟨⟨[58]⟩, ⟨[], ['@','s','y','m','b','o','l']⟩⟩,      -- CAPSLOCK → @symbol
+  Fancy.Mapping.alias ⟨⟨[100]⟩, ⟨[], ['@','s','y','m','b','o','l']⟩⟩,     -- RIGHTALT → @symbol
+  Fancy.Mapping.row ⟨⟨[Fancy.Modifier.alias ['@','s','y','m','b','o','l']], Fancy.Row.q⟩,
+    ⟨[], [' ','{','}','%',' ','\\','*',']','[','|','~']⟩, Fancy.RowRepeat.normal, []⟩]
+
+example : parseLayoutFromJson easySymbolsFragment = Outcome.ok easySymbolsFancy := by decide +kernel
+
+/-- its expansion: 1 + 2 × 9 = 19 mappings, CAPSLOCK's nine before RIGHTALT's nine -/
+example : (match Expand.expand easySymbolsFancy with | Outcome.ok L => L.length | _ => 0) = 19 := by decide +kernel
+example : Expand.expand easySymbolsFancy = convert easySymbolsFancy := (C13_spec _).symm
+
+/-- right Shift, a repeat-only entry naming the trigger in another order, and one adding an identity
+mapping:
+`[RIGHTSHIFT, LEFTCTRL, {row A}] → {letters "aB"}`, `[LEFTCTRL, RIGHTSHIFT, S] repeat Disabled`,
+`[LEFTCTRL, F] repeat Disabled` -/
+example : Expand.expand [
+    Fancy.Mapping.row ⟨⟨[Fancy.Modifier.key 54, Fancy.Modifier.key 29], Fancy.Row.a⟩, ⟨[], ['a','B']⟩,
+      Fancy.RowRepeat.normal, []⟩,
+    Fancy.Mapping.repeatOnly ⟨⟨[Fancy.Modifier.key 29, Fancy.Modifier.key 54], 31⟩, Fancy.SingleRepeat.disabled⟩,
+    Fancy.Mapping.repeatOnly ⟨⟨[Fancy.Modifier.key 29], 33⟩, Fancy.SingleRepeat.disabled⟩] =
+  Outcome.ok [⟨[54, 29, 30], [30], Repeat.normal, []⟩,
+              ⟨[54, 29, 31], [54, 48], Repeat.disabled, []⟩,
+              ⟨[29, 33], [29, 33], Repeat.disabled, []⟩] := by decide +kernel
 
 end TmVerif
